@@ -1574,6 +1574,9 @@ func (vc *VC) modOfCall(st *State, call ssa.CallInstruction, inLoop func(ssa.Val
 				return TV{T: x.T, S: goSType(v.Type())}
 			}
 		}
+		if t, ok := vc.provisionalFieldLoad(st, v); ok {
+			return TV{T: t, S: goSType(v.Type())}
+		}
 		allOutside = false
 		return TV{T: vc.d.declConst("unknown_"+sortID(sortOf(v.Type())), sortOf(v.Type())), S: goSType(v.Type())}
 	}
